@@ -186,13 +186,21 @@ def capacity_cases(rng, tier, vectors, octs, good_txt, bad_txt):
         for sl in slot_sweep(len(a)):
             cases.append(("oid_parse_n %s %s" % (sl, h), "cap_parse", (txt, a, sl)))
         cases.append(("parse_idiom " + h, "idiom_parse", (txt, a)))
+        if i % 3 == 0 and "\x00" not in txt:
+            for sl in slot_sweep(len(a)):      # the same, NUL terminated with oid_txt_length = -1
+                cases.append(("oid_parse_z %s %s" % (sl, h), "cap_parse", (txt, a, sl)))
     for a in long_vectors(rng):
         txt = ".".join(str(x) for x in a)
         for sl in slot_sweep(len(a)):
             cases.append(("oid_parse_n %s %s" % (sl, hexs(txt.encode())), "cap_parse", (txt, a, sl)))
+            cases.append(("oid_parse_z %s %s" % (sl, hexs(txt.encode())), "cap_parse", (txt, a, sl)))
     for b in bad_txt:
         for sl in slot_sweep(min(b.count(b"."), 4)):
             cases.append(("oid_parse_n %s %s" % (sl, hexs(b)), "cap_parse_any", (b, sl)))
+        if b"\x00" in b:                        # strlen() stops at the NUL: reference = the text up to it
+            z = b[:b.index(b"\x00")]
+            for sl in ("N", 0, 1, 2):
+                cases.append(("oid_parse_z %s %s" % (sl, hexs(b)), "cap_parse_any", (z, sl)))
     # one subidentifier followed by two octets, handed over with every buffer length
     vals = sorted(set(ARC_EDGE + [2 ** (7 * k) + d for k in range(1, 5) for d in (-1, 0, 1)] + [rng.below(U32) for _ in range(40 if quick else 2000)]))
     for v in vals:
@@ -218,6 +226,21 @@ def capacity_cases(rng, tier, vectors, octs, good_txt, bad_txt):
         txt = rng.choice(ws) + ".".join(str(x) for x in a) + rng.choice(ws)
         cases.append(("oid_xer " + hexs(txt.encode()), "xer_oid", a))
         cases.append(("reloid_xer " + hexs(txt.encode()), "xer_reloid", a))
+    # the XER body writers return the number of octets handed to the callback (scratch[32] per arc)
+    for a in xv:
+        if valid_first_pair(a):
+            cases.append(("oid_dump " + hexs(oid_ref(a)), "dump", a))
+        cases.append(("reloid_dump " + hexs(b"".join(b128(x) for x in a)), "dump", a))
+    for i, b in enumerate(octs):
+        if not quick or i % 5 == 0:
+            cases.append(("oid_dump " + hexs(b), "dump_any", b))
+            cases.append(("reloid_dump " + hexs(b), "dump_any", b))
+    # set_arcs on an object that already owns a buffer (smaller, equal, larger than the result; none)
+    for a in xv + [[0, 40], [3, 1], [2, U32 - 80], [1], []]:
+        n = len(oid_ref(a)) if valid_first_pair(a) else 3
+        for pv in ["N", 0, 1, max(0, n - 1), n, n + 1, 5 * len(a) + 1]:
+            cases.append((" ".join(["oid_set_re", str(pv)] + [str(x) for x in a]), "set_re", (a, False)))
+        cases.append((" ".join(["reloid_set_re", str(rng.choice(["N", 0, 1, n, 64]))] + [str(x) for x in a]), "set_re", (a, True)))
     return cases
 
 
@@ -289,6 +312,20 @@ def capacity_oracle(run, cases, co, cdrv):
             g1 = refq["oid_get1 " + hexs(pl)]
             m = re.match(r"^OK (\d+) (\d+)$", g1)
             exp = "OK %d %d %s" % (split_ref(int(m.group(1))) + (m.group(2),)) if m else g1
+        elif kind == "dump":
+            t = ".".join(str(x) for x in pl)
+            exp = "OK %d %s" % (len(t), hexs(t.encode()))
+        elif kind == "dump_any":
+            m = re.match(r"^OK (\d+) (\S+)$", c)
+            if m is None or 2 * int(m.group(1)) == (0 if m.group(2) == "-" else len(m.group(2))):
+                continue                      # failure, or returned size = octets delivered
+            exp = "OK <number of octets delivered> <text>"
+        elif kind == "set_re":
+            a, rel = pl
+            if rel:
+                exp = hexs(b"".join(b128(x) for x in a))
+            else:
+                exp = "EINVAL" if len(a) < 2 else hexs(oid_ref(a)) if valid_first_pair(a) else "ERANGE"
         elif kind == "xer_oid":
             exp = ("OK " + " ".join(str(x) for x in pl)) if valid_first_pair(pl) else "FAIL"
             run.count("xer_oid_arcs_" + ("le10" if len(pl) <= 10 else "gt10"))
@@ -301,6 +338,13 @@ def capacity_oracle(run, cases, co, cdrv):
             continue
         if kind.startswith("cap_") or kind.startswith("idiom"):
             run.violation("oracle:capacity(%s)" % line.split()[0], {"what": what_cap, "command_line": line, "expected": exp, "c": c})
+        elif kind.startswith("dump"):
+            run.violation("oracle:size_returned(%s)" % line.split()[0],
+                          {"what": "the XER body writer must deliver the dotted decimal text of the arcs and return the number of octets it delivered",
+                           "command_line": line, "expected": exp, "c": c})
+        elif kind == "set_re":
+            run.violation("oracle:set_arcs_reuse", {"what": "set_arcs on an object that already owns a buffer: same octets as on a fresh object, NUL after them; on failure the object is left as it was",
+                                                    "command_line": line, "expected": exp, "c": c})
         elif kind.startswith("buf_"):
             run.violation("oracle:buffer_length(%s)" % line.split()[0],
                           {"what": "a subidentifier handed over with a buffer length k must be: nothing (k = 0), EINVAL (k inside it), its value and length (k >= its length)",
@@ -354,7 +398,7 @@ def correspond_resume(run, name, lines, model, cdrv, max_restarts=6):
 
 
 def model_file(kind):
-    if kind.startswith(("cap_", "buf_", "xer_")):
+    if kind.startswith(("cap_", "buf_", "xer_", "dump", "set_re")):
         return "OidSlots"
     if kind.startswith(("oid", "reloid")):
         return "Oid"
